@@ -290,18 +290,139 @@ class PressureSlice:
                         self.cls = n
         if self.fn is None:
             raise TranslateError("EOM.%s not found" % self.METHOD)
+        self.aliases, self.alias_text = {}, {}
         self.check_pure_methods(self.cls)
         self.params = [a.arg for a in self.fn.args.args]
         for need in ("wallParams", "vevLowT", "vevHighT", "boltzmannResults"):
             if need not in self.params:
                 raise TranslateError("%s has no parameter %s" % (self.METHOD, need))
         self.fresh = 0
+        self.aliases, self.alias_text = {}, {}
         self.wall_versions = {0: "value passed by the caller"}
         self.grid_versions = {0: "grid on entry"}
         self.facts = []
         self.run()
 
     # -- helpers ---------------------------------------------------------------------
+    # -- aliases and in-place updates (fail closed) -------------------------------------------
+    @staticmethod
+    def chain_root(node):
+        """root Name of a pure Name/Attribute/Subscript chain, else None"""
+        n = node
+        while isinstance(n, (ast.Attribute, ast.Subscript)):
+            n = n.value
+        return n.id if isinstance(n, ast.Name) else None
+
+    @staticmethod
+    def is_pure_chain(node):
+        n = node
+        while isinstance(n, (ast.Attribute, ast.Subscript)):
+            n = n.value
+        return isinstance(n, ast.Name)
+
+    def kind_of(self, node):
+        """which tracked object a pure chain denotes: grid / solver / self / wp / br / None"""
+        if not self.is_pure_chain(node):
+            return None
+        u = ast.unparse(node)
+        root = self.chain_root(node)
+        if root == "self":
+            if u == "self":
+                return "self"
+            if u == "self.grid":
+                return "grid"
+            if u == "self.boltzmannSolver" or u.startswith("self.boltzmannSolver."):
+                return "solver"
+            return None
+        if root == "wallParams":
+            return "wp" if u == "wallParams" else None
+        if root == "boltzmannResults":
+            return "br"
+        k = self.aliases.get(root)
+        if k in ("grid", "self") and u != root:
+            return None                  # an attribute of the grid (an array), not the grid
+        return k
+
+    def register_aliases(self, st):
+        for n in ast.walk(st):
+            if isinstance(n, ast.Assign) and len(n.targets) == 1 and \
+                    isinstance(n.targets[0], ast.Name):
+                k = self.kind_of(n.value)
+                name = n.targets[0].id
+                if k == "wp" and name != "wallParams":
+                    raise TranslateError("alias %s of the wall parameters (line %d)" % (
+                        name, n.lineno))
+                if k and name not in ("wallParams", "boltzmannResults"):
+                    self.aliases[name] = k
+                    self.alias_text[name] = {"grid": "self.grid", "self": "self",
+                                             "solver": "self.boltzmannSolver"}.get(k, name)
+
+    def in_place_hazards(self, st, val, ver):
+        """stores through subscripts / attributes, out= keywords and calls that receive a
+        tracked object: the object may change in place, so it gets a new version (wall
+        parameters), becomes opaque (locals of the slice) or the translation fails closed
+        (Boltzmann results)"""
+        bump_wall = False
+        opaque = []
+        for n in ast.walk(st):
+            tgs = []
+            if isinstance(n, ast.Assign):
+                tgs = n.targets
+            elif isinstance(n, (ast.AugAssign, ast.AnnAssign)):
+                tgs = [n.target]
+            for t in tgs:
+                for tt in ([t] if not isinstance(t, (ast.Tuple, ast.List)) else t.elts):
+                    if isinstance(tt, ast.Name):
+                        continue
+                    root = self.chain_root(tt)
+                    kind = self.aliases.get(root) or {"wallParams": "wp",
+                                                      "boltzmannResults": "br"}.get(root)
+                    if kind == "br":
+                        raise TranslateError("in-place update of the Boltzmann results: %s "
+                                             "(line %d)" % (ast.unparse(tt)[:60], n.lineno))
+                    if kind == "wp" and not (isinstance(tt, ast.Attribute) and n in
+                                             getattr(self.fn, "body", [])):
+                        bump_wall = True       # (top-level wallParams.x = ... is versioned below)
+                    if kind is None and root is not None and root != "self":
+                        opaque.append(root)
+            if isinstance(n, ast.Call):
+                f = ast.unparse(n.func)
+                for k in n.keywords:
+                    if k.arg == "out":
+                        root = self.chain_root(k.value)
+                        kind = self.aliases.get(root) or {"wallParams": "wp",
+                                                          "boltzmannResults": "br"}.get(root)
+                        if kind == "br":
+                            raise TranslateError("out=%s (line %d)" % (root, n.lineno))
+                        if kind == "wp":
+                            bump_wall = True
+                        elif root:
+                            opaque.append(root)
+                for a in list(n.args) + [k.value for k in n.keywords]:
+                    if not isinstance(a, ast.Name):
+                        continue
+                    kind = self.aliases.get(a.id) or {"wallParams": "wp",
+                                                      "boltzmannResults": "br"}.get(a.id)
+                    if kind == "wp" and f != "self.wallProfile":
+                        bump_wall = True
+                    if kind == "br" and not (f.startswith("self.") and
+                                             f.split(".")[1] in GRID_PURE_METHODS):
+                        raise TranslateError("Boltzmann results handed to %s, which may "
+                                             "update them in place (line %d)" % (f, n.lineno))
+        if opaque:
+            val = dict(val)
+            for r in opaque:
+                if r in val:
+                    val[r] = ("opaque", r)
+        if bump_wall:
+            ver = dict(ver)
+            ver["wall"] += 1
+            self.wall_versions[ver["wall"]] = "possible in-place change, line %d: %s" % (
+                st.lineno, " ".join(ast.unparse(st).split())[:60])
+            val = dict(val)
+            val["wallParams"] = ("wp", ver["wall"])
+        return val, ver
+
     def new_br(self, st):
         k = max(self.br_versions) + 1
         self.br_versions[k] = "line %d: %s" % (st.lineno,
@@ -337,6 +458,11 @@ class PressureSlice:
             if isinstance(c, ast.Call):
                 f = ast.unparse(c.func)
                 parts = f.split(".")
+                if parts[0] in self.aliases and self.aliases[parts[0]] in ("grid", "solver",
+                                                                          "self"):
+                    parts = self.alias_text[parts[0]].split(".") + parts[1:]
+                    if len(parts) == 2 and parts[1] == "boltzmannSolver":
+                        parts = parts + ["__call__"]
                 if parts[0] == "self" and len(parts) >= 2:
                     if parts[1] == "grid":
                         if not (len(parts) == 3 and parts[2] in GRID_READERS):
@@ -351,7 +477,11 @@ class PressureSlice:
                 args = list(c.args) + [k.value for k in c.keywords]
                 for a in args:
                     ua = ast.unparse(a)
-                    if ua == "self" or (ua == "self.grid" and f != "Polynomial"):
+                    if isinstance(a, ast.Name) and self.aliases.get(a.id) in ("grid", "self",
+                                                                             "solver"):
+                        ua = self.alias_text[a.id]
+                    if ua in ("self", "self.boltzmannSolver") or \
+                            (ua == "self.grid" and f != "Polynomial"):
                         n += 1
             if isinstance(c, (ast.Assign, ast.AugAssign, ast.AnnAssign)):
                 tgs = c.targets if isinstance(c, ast.Assign) else [c.target]
@@ -406,6 +536,8 @@ class PressureSlice:
                 raise TranslateError("statements after the return (line %d)" % st.lineno)
             if isinstance(st, ast.Expr) and isinstance(st.value, ast.Constant):
                 continue
+            self.register_aliases(st)
+            val, ver = self.in_place_hazards(st, val, ver)
             g = self.grid_mutations(st)
             if g:
                 ver = dict(ver)
@@ -426,6 +558,7 @@ class PressureSlice:
                     value = ast.BinOp(left=pyrx._load(st.target), op=st.op, right=st.value)
                     ast.copy_location(value, st)
                     ast.fix_missing_locations(value)
+                before = val            # environment in which the right-hand side is evaluated
                 val = dict(val)
                 if isinstance(tg, ast.Attribute):
                     base = tg.value
@@ -451,7 +584,7 @@ class PressureSlice:
                     if tg.id == "boltzmannResults":
                         val[tg.id] = ("br", "%d%%nat" % self.new_br(st))
                         continue
-                    val[tg.id] = _Lazy(value, None, val, ver, st.lineno)
+                    val[tg.id] = _Lazy(value, None, before, ver, st.lineno)
                     continue
                 if isinstance(tg, (ast.Tuple, ast.List)):
                     lz = {}
@@ -461,7 +594,7 @@ class PressureSlice:
                                                                    "boltzmannResults"):
                             raise TranslateError("unpack target %s (line %d)" % (
                                 ast.unparse(e), st.lineno))
-                        lz[e.id] = _Lazy(value, k, val, ver, st.lineno)
+                        lz[e.id] = _Lazy(value, k, before, ver, st.lineno)
                     val.update(lz)
                     continue
                 raise TranslateError("assignment target %s (line %d)" % (
@@ -578,15 +711,28 @@ class PressureSlice:
             raise TranslateError("subscript %s (line %d)" % (ast.unparse(node)[:50],
                                                               node.lineno))
         if isinstance(node, ast.Attribute):
+            if ast.unparse(node) == "self.grid":
+                return ("gridobj",)
+            if ast.unparse(node.value) == "self":
+                raise TranslateError("attribute %s in the pressure slice (line %d)" % (
+                    ast.unparse(node)[:50], node.lineno))
             a = self.ev(node.value, val, ver)
             if a[0] == "br":
                 return a           # a component of the Boltzmann results: same version
+            if a[0] == "gridobj" and node.attr == "xiValues":
+                return ("xi", ver["grid"])     # the array of positions of THIS grid version
             raise TranslateError("attribute %s in the pressure slice (line %d)" % (
                 ast.unparse(node)[:50], node.lineno))
         if isinstance(node, ast.Call):
             return self.call(node, val, ver)
         raise TranslateError("expression %s in the pressure slice (line %d)" % (
             ast.unparse(node)[:50], node.lineno))
+
+    def ev_is_grid(self, node, val, ver):
+        try:
+            return self.ev(node, val, ver)[0] == "gridobj"
+        except TranslateError:
+            return False
 
     def arith(self, op, a, b, node):
         kinds = (a[0], b[0])
@@ -610,7 +756,11 @@ class PressureSlice:
         if f == "self.wallProfile":
             if len(node.args) != 4 or kw:
                 raise TranslateError("wallProfile call shape (line %d)" % node.lineno)
-            if ast.unparse(node.args[0]) != "self.grid.xiValues":
+            try:
+                pos = self.ev(node.args[0], val, ver)
+            except TranslateError:
+                pos = ("?",)
+            if pos[0] != "xi":
                 raise TranslateError("wallProfile evaluated on %s, not on the grid "
                                      "(line %d)" % (ast.unparse(node.args[0]), node.lineno))
             lo = self.ev(node.args[1], val, ver)
@@ -618,9 +768,9 @@ class PressureSlice:
             wp = self.ev(node.args[3], val, ver)
             if lo != ("vev", "lo") or hi != ("vev", "hi") or wp[0] != "wp":
                 raise TranslateError("wallProfile arguments (line %d)" % node.lineno)
-            z = "(xi e %d%%nat c)" % ver["grid"]
+            z = "(xi e %d%%nat c)" % pos[1]
             v = wp[1]
-            fact = dict(line=node.lineno, wall_version=v, grid_version=ver["grid"])
+            fact = dict(line=node.lineno, wall_version=v, grid_version=pos[1])
             if fact not in self.facts:
                 self.facts.append(fact)
 
@@ -641,8 +791,9 @@ class PressureSlice:
                 j, Fj, i))
         if f in ("np.array", "np.asarray") and len(node.args) == 1:
             return self.ev(node.args[0], val, ver)
-        if f == "np.sum" and len(node.args) == 1:
-            ax = pyrx.const_value(kw.get("axis")) if "axis" in kw else None
+        if f == "np.sum" and len(node.args) in (1, 2):
+            ax = pyrx.const_value(kw.get("axis")) if "axis" in kw else (
+                pyrx.const_value(node.args[1]) if len(node.args) == 2 else None)
             arg = node.args[0]
             if isinstance(arg, ast.ListComp):
                 if ax != 0 or len(arg.generators) != 1:
@@ -681,10 +832,16 @@ class PressureSlice:
             raise TranslateError("np.sum(%s, axis=%s) (line %d)" % (a[0], ax, node.lineno))
         if f == "Polynomial" and len(node.args) == 2 and not kw:
             a = self.ev(node.args[0], val, ver)
-            if a[0] != "pp" or ast.unparse(node.args[1]) != "self.grid":
+            try:
+                gobj = self.ev(node.args[1], val, ver)
+            except TranslateError:
+                gobj = ("?",)
+            if a[0] != "pp" or gobj[0] != "gridobj":
                 raise TranslateError("Polynomial(...) arguments (line %d)" % node.lineno)
             return ("poly", a[1], ver["grid"])
-        if f == "self.grid.getCompactificationDerivatives" and not node.args and not kw:
+        if isinstance(node.func, ast.Attribute) and \
+                node.func.attr == "getCompactificationDerivatives" and not node.args and \
+                not kw and self.ev_is_grid(node.func.value, val, ver):
             g = ver["grid"]
             return ("tuple", [("pp", "(dzdchi e %d%%nat c)" % g), ("opaque", "dpzdrz"),
                               ("opaque", "dppdrp")])
